@@ -86,7 +86,7 @@ def build_coq(targets=None):
         if rc != 0:
             raise BuildError("coq_makefile failed:\n" + out)
     tgt = " ".join(targets) if targets else ""
-    rc, out = sh("timeout 1500 make -j%d %s" % (CORES, tgt), cwd=COQ, timeout=1600)
+    rc, out = sh("timeout 5400 make -j%d %s" % (CORES, tgt), cwd=COQ, timeout=5500)
     return rc, out
 
 
